@@ -3,6 +3,10 @@
 package corsref
 
 import (
+	"fmt"
+	"io"
+	"log"
+	"log/slog"
 	"net/http"
 	"strings"
 
@@ -71,6 +75,8 @@ type Case struct {
 	Routes   []Route   `json:"routes"`
 	Reqs     []Request `json:"reqs"`
 	Sibling  *Sibling  `json:"sibling,omitempty"`
+	// Recovery: which recovery option the router has when one of its routes panics: status (default) func write log slog
+	Recovery string `json:"recovery,omitempty"`
 }
 
 var (
@@ -80,6 +86,20 @@ var (
 	witness    = map[string]string{"/a": "/a", "/b/{id}": "/b/7", "/c": "/c"}
 	methodSets = [][]string{{"GET"}, {"POST"}, {"GET", "POST"}, {"DELETE", "PUT"}, {"GET", "PATCH", "DELETE"}, nil}
 )
+
+// bigOrigins: a pool for origin lists of a size beyond the usual (nine to forty entries); some are 64 bytes and longer.
+// A list is a subset, so unlisted members sort between, before and behind the listed ones.
+var bigOrigins = func() []string {
+	var out []string
+	for i := 0; i < 60; i++ {
+		o := fmt.Sprintf("https://t%02d.example.com", i)
+		if i%7 == 3 {
+			o = fmt.Sprintf("https://%s%02d.example.com", strings.Repeat("l", 40+i), i)
+		}
+		out = append(out, o)
+	}
+	return out
+}()
 
 func randCase(t *rapid.T, s string) string {
 	b := []byte(s)
@@ -105,6 +125,9 @@ func Gen(t *rapid.T) Case {
 		c.Cfg.Origins = append(rapid.SliceOfNDistinct(rapid.SampledFrom(originPool[:3]), 1, 2, rapid.ID[string]).Draw(t, "originsStar"), "*")
 	default:
 		c.Cfg.Origins = rapid.SliceOfNDistinct(rapid.SampledFrom(originPool[:3]), 1, 3, rapid.ID[string]).Draw(t, "origins")
+		if rapid.IntRange(0, 7).Draw(t, "bigList") == 0 {
+			c.Cfg.Origins = rapid.Permutation(bigOrigins).Draw(t, "bigOrigins")[:rapid.IntRange(8, 40).Draw(t, "bigN")]
+		}
 	}
 	switch rapid.IntRange(0, 4).Draw(t, "ahMode") {
 	case 0:
@@ -134,6 +157,11 @@ func Gen(t *rapid.T) Case {
 		}
 	}
 	c.Cfg.Trace = rapid.IntRange(0, 4).Draw(t, "trace") == 0
+	c.Recovery = rapid.SampledFrom([]string{"status", "func", "write", "log", "slog"}).Draw(t, "recoveryKind")
+	if rapid.IntRange(0, 11).Draw(t, "allowAll") == 0 {
+		// the configuration WithAllowedCORS(maxAge) stands for; it is then built with that option
+		c.Cfg.Origins, c.Cfg.AllowHeaders, c.Cfg.Exposed, c.Cfg.Cred = []string{"*"}, []string{"*"}, nil, false
+	}
 	c.Subject = rapid.SampledFrom([]string{"router", "router", "gnew-override", "gnew-inherit"}).Draw(t, "subject")
 	if c.Subject == "gnew-override" {
 		// what the group was given must not matter: a permissive list with credentials
@@ -215,7 +243,11 @@ func Gen(t *rapid.T) Case {
 		case 1:
 			q.Origin = str(strings.ToUpper(rapid.SampledFrom(originPool[:3]).Draw(t, "originUpper")))
 		case 2:
-			q.Origin = str(rapid.SampledFrom([]string{"https://evil.example", "null", "https://a.example.evil", "", "*"}).Draw(t, "originBad"))
+			bad := []string{"https://evil.example", "null", "https://a.example.evil", "", "*", "https://zzz.example", "a", "https://t00.example.co", "https://t59.example.comm"}
+			if len(c.Cfg.Origins) > 4 {
+				bad = append(append([]string{}, bad...), bigOrigins...) // mostly unlisted members of the pool the list was cut from
+			}
+			q.Origin = str(rapid.SampledFrom(bad).Draw(t, "originBad"))
 		case 3:
 			q.Origin = str(rapid.SampledFrom(originPool[:3]).Draw(t, "originPool"))
 		default:
@@ -290,11 +322,11 @@ type World struct {
 	H http.Handler // what requests are sent to (the router or its group)
 	M *ref.Table
 
-	c    Case
-	done map[int]bool // removals already applied
+	c     Case
+	done  map[int]bool // removals already applied
 	added map[int]bool
 	env   *rig.Env
-	sib  http.Handler
+	sib   http.Handler
 }
 
 func corsOpt(c Config) mux.Option {
@@ -307,6 +339,9 @@ func corsOpt(c Config) mux.Option {
 	}
 	if len(c.Origins) == 0 && len(c.AllowHeaders) == 0 && len(c.Exposed) == 0 && c.MaxAge == 0 && !c.Cred {
 		return mux.WithDenyCORS() // the documented spelling of "no CORS at all"
+	}
+	if len(c.Origins) == 1 && c.Origins[0] == "*" && len(c.AllowHeaders) == 1 && c.AllowHeaders[0] == "*" && len(c.Exposed) == 0 && !c.Cred {
+		return mux.WithAllowedCORS(c.MaxAge) // the documented spelling of "everything from everywhere"
 	}
 	return mux.WithCORS(own(c.Origins), own(c.AllowHeaders), own(c.Exposed), c.MaxAge, c.Cred)
 }
@@ -346,7 +381,18 @@ func Build(c Case) *World {
 	var recov []mux.Option
 	for _, rt := range c.Routes {
 		if rt.Panics {
-			recov = []mux.Option{mux.WithStatusRecovery(500)}
+			switch c.Recovery {
+			case "func":
+				recov = []mux.Option{mux.WithRecovery(func(w http.ResponseWriter, _ any) { w.WriteHeader(500) })}
+			case "write":
+				recov = []mux.Option{mux.WithWriteRecovery(500, io.Discard)}
+			case "log":
+				recov = []mux.Option{mux.WithLogRecovery(500, log.New(io.Discard, "", 0))}
+			case "slog":
+				recov = []mux.Option{mux.WithSLogRecovery(500, slog.New(slog.NewTextHandler(io.Discard, nil)))}
+			default:
+				recov = []mux.Option{mux.WithStatusRecovery(500)}
+			}
 		}
 	}
 	var sib http.Handler
